@@ -17,6 +17,7 @@ from .verify import Verifier
 def _gen_one(job):
     repo_dir, contract_modules, qualname, kind = job[:4]
     case_range = job[4] if len(job) > 4 else None
+    shard = job[5] if len(job) > 5 else None
     t0 = time.time()
     for mname in contract_modules:
         importlib.import_module(mname)
@@ -31,7 +32,7 @@ def _gen_one(job):
         from .lemmas import gen_lemma
         rep = gen_lemma(REGISTRY, qualname)
     else:
-        rep = V.gen_function(qualname, case_range)
+        rep = V.gen_function(qualname, case_range, shard)
     vcs = []
     if rep.status == "ok":
         for ob in rep.obligations:
@@ -87,14 +88,22 @@ def run(repo_dir, contract_modules, functions, lemmas=(), timeout_ms=20000, slow
             step = max(1, n // 16)
             for a in range(0, n, step):
                 jobs.append((repo_dir, list(contract_modules), f, "function", (a, min(n, a + step))))
+        elif c is not None and c.shards_ > 1:
+            for k in range(c.shards_):
+                jobs.append((repo_dir, list(contract_modules), f, "function", None, (k, c.shards_)))
         else:
             jobs.append((repo_dir, list(contract_modules), f, "function"))
     jobs += [(repo_dir, list(contract_modules), l, "lemma") for l in lemmas]
+    jobs.sort(key=lambda j: 0 if (len(j) > 5 and j[5]) else 1)     # the sharded (heavy) functions start first
     if len(jobs) <= 1:
         reports = [_gen_one(j) for j in jobs]
     else:
         with ProcessPoolExecutor(max_workers=min(workers, len(jobs))) as ex:
             reports = list(ex.map(_gen_one, jobs))
+    if os.environ.get("VERIF_TIMING"):
+        import sys
+        for j, rep in zip(jobs, reports):
+            print("TIMING gen", rep["qualname"], j[4:], rep["gen_s"], rep["paths"], len(rep["vcs"]), file=sys.stderr)
     merged = {}
     for rep in reports:
         k = (rep["qualname"], rep["kind"])
@@ -128,7 +137,15 @@ def run(repo_dir, contract_modules, functions, lemmas=(), timeout_ms=20000, slow
             key = ("reach", rep["qualname"], k)
             sjobs.append((key, txt, 5000, False))
             rkeys.append((rep["qualname"], key))
+    t_d = time.time()
     res = smt.discharge(sjobs, workers=workers)
+    if os.environ.get("VERIF_TIMING"):
+        import sys
+        print("TIMING discharge", len(sjobs), round(time.time() - t_d, 1), file=sys.stderr)
+        slowest = sorted(((res[k][2], k) for k in res if not isinstance(k, tuple)), reverse=True)[:8]
+        names = {key: name for name, kind, info, key in index if key is not None}
+        for sec, k in slowest:
+            print("TIMING slow", round(sec, 1), names.get(k), res[k][0], res[k][1], file=sys.stderr)
     clauses = {}
     for name, kind, info, key in index:
         co = clauses.setdefault(name, ClauseOutcome(name, kind))
